@@ -159,6 +159,9 @@ var kinds = []string{
 	// a caller-supplied entropy source that panics inside Read; the caller recovers.  Whatever the library
 	// holds across the call into the caller's code (a lock, a pooled buffer) must not stay held
 	"reader.panics",
+	// signing with the process-wide default entropy source (a nil reader): whatever sits between the library and
+	// crypto/rand is shared by all goroutines.  The signatures differ from call to call; each must verify
+	"sign.default-entropy",
 }
 
 type panickingReader struct{ after int }
@@ -307,6 +310,15 @@ func (e *env) exec(o op) []byte {
 		return b2(r.Bytes(), inv.Bytes(), sum.Bytes(), secp256k1.NewScalarFrom(e.scs[b3]).Bytes())
 	case "scalar.observe":
 		return []byte{byte(e.scs[a3].Equal(e.scs[b3])), byte(e.scs[a3].IsZero()), byte(e.scs[a3].IsGreaterThanHalfN()), e.scs[c3].Bytes()[31]}
+	case "sign.default-entropy":
+		var out []byte
+		sig, err := e.priv[i].Sign(nil, e.dig[j], &secec.ECDSAOptions{Hash: crypto.SHA256, Encoding: secec.EncodingCompact})
+		out = append(out, flag(err == nil && e.priv[i].PublicKey().Verify(e.dig[j], sig, &secec.ECDSAOptions{Hash: crypto.SHA256, Encoding: secec.EncodingCompact, RejectMalleable: true}))...)
+		r, sc, _, err := e.priv[j].SignRaw(nil, e.dig[k])
+		out = append(out, flag(err == nil && e.priv[j].PublicKey().VerifyRaw(e.dig[k], r, sc))...)
+		ssig, err := e.spriv[i].Sign(nil, e.dig[j], nil)
+		out = append(out, flag(err == nil && e.spriv[i].PublicKey().Verify(e.dig[j], ssig))...)
+		return out
 	case "reader.panics":
 		var out []byte
 		try := func(f func()) {
